@@ -1,26 +1,48 @@
 from props import P
 
 CFG = P(
-        harness=["harness/C04.cc"], harness_deps=["harness/C04_jsonref.hh"],
+        harness=["harness/C04.cc"], harness_deps=["harness/C04_jsonref.hh", "harness/C04_r2.hh"],
         srcs=["JSON.cc", "Strings.cc", "Filesystem.cc", "Process.cc", "Time.cc", "Encoding.cc"],
         oracle="C04", flags=[],
         deadline={"quick": 900, "thorough": 5400},
-        rule="a case is one JSON value tree (built through the public API) crossed with every enumerated SerializeOption set; every case is non-trivial: "
+        rule="a case is one JSON value tree (built through the public API) crossed with every enumerated SerializeOption set (sections assign/compare/ctors/history/context/ops: one (dst, src) pair or triple, one value against all others, "
+             "one constructed value, one call history, one call in all contexts, one mutation history); every case is non-trivial: "
              "it is serialised, parsed back in default mode (and in strict mode / by the RFC 8259 reference when the options are standard), re-serialised, copied and the copy mutated. "
              "Values are distinct by construction (atoms, unranked trees, byte strings and floats are enumerated without repetition).",
         bounds={
             "quick": "atoms: 98 atoms, [atom], {key: atom} for 21 keys (<=2 nodes); trees: all 5 533 trees with 3..4 nodes (nesting <=3, lists <=3, dicts <=2, 7 leaf representatives, 3 keys); "
                      "strings: every byte string of length 0..2 as value and as key (length <=1 x 64 option sets, length 2 x the 16 sets over the four bits that can affect a string); "
-                     "floats: 9 mantissas x 10^e, e in [-300, 300], both signs (10 818 floats); deep: 18 chains nested 200 deep; all x 64 SerializeOption sets x {default, strict where standard}",
-            "thorough": "as quick, with trees up to 6 nodes and the two-byte strings crossed with all 64 option sets",
+                     "floats: 9 mantissas x 10^e, e in [-300, 300], both signs (10 818 floats) plus 10^e (e in [-307, 308]) and 2^e (e in [-1022, 1023]) with both neighbouring doubles, both signs; deep: 18 chains nested 200 deep; "
+                     "all x 64 SerializeOption sets x {default, strict where standard}; atoms/trees/ints/deep additionally through parse(const char*, size) on an exact-size block and parse(StringReader&) on a partly consumed reader. "
+                     "Round 2: strings: + every 3-byte string over a 20-byte boundary alphabet as [s, s] and {s: s}, escape_string() directly on every string of length <= 2; "
+                     "ints: 481 boundary int64 (2^k-1, 2^k, 2^k+1, 10^k-1, 10^k, 10^k+1, both signs) alone / in a list / as key+value; "
+                     "assign: pool of 44 small trees, all 1 936 ordered (dst, src) pairs x {copy-assign over dst built fresh/parsed/assigned, move-assign, move-construct, swap, assignment into <=3 child positions}, self-assignment, member copies, all ordered triples of a 31-value sub-pool; "
+                     "compare: operator==/!= on all 819 025 ordered pairs of 905 values (pool, strings with embedded NUL, boundary ints, doubles 2^k-1/2^k/2^k+1) and against nullptr, bool, 11 integral types, double, float, std::string, const char*, list_type, dict_type; "
+                     "ctors: every constructor overload (16 integral instantiations at their 2^k boundaries, 4 string overloads x 281 strings, enum, vector<T> x 16, unordered_map<string,T> x 9) and 3 construction routes + accessor shorthands on all trees <= 4 nodes; "
+                     "history: 14 values x all 4 096 ordered option-set pairs, every ordered pair of 154 serialize/parse calls as A;B;A, every ordered triple of a 28-call sub-alphabet, two-generation round trip under all (o1, o2); "
+                     "context: the same calls in a catch handler, during unwinding, inside the handler of the library's own parse_error, under 6 errno values; "
+                     "ops: every sequence of 1..3 of 30 mutating operations from 6 initial states against a std::vector/std::unordered_map model, final state round-trips and equals its copies; "
+                     "wide: strings of 15..65 536 bytes, lists of 255..65 537 entries, dictionaries of 255..4 096 keys, resize to 65 537 and back, indent_level 1..4096 x 64 option sets",
+            "thorough": "as quick, with trees up to 6 nodes, the two-byte strings crossed with all 64 option sets, 4-byte strings over the boundary alphabet, assignment triples over the whole pool, mutation histories of length 4, "
+                        "a 1 MiB string, a 1 000 000-entry list and a 16 385-key dictionary",
         },
         explanation="E-ENUM over value trees; per (value, option set): parse(serialize) structural identity with int/float kind (floats rel. 1e-5), JSON::operator== on float-free values, "
                     "sorted re-serialisation fixed point, strict-mode acceptance and RFC 8259 reference (R_std, harness/C04_jsonref.hh) agreement for standard option sets, R_ext agreement for "
-                    "HEX_INTEGERS/ONE_CHARACTER_TRIVIAL_CONSTANTS text, deep-copy checks; every distinct standard text is replayed through Python json.loads by oracles/C04.py",
+                    "HEX_INTEGERS/ONE_CHARACTER_TRIVIAL_CONSTANTS text, deep-copy checks; every distinct standard text is replayed through Python json.loads by oracles/C04.py. "
+                    "Round 2 (harness/C04_r2.hh): assignment over non-fresh destinations for all ordered pairs/triples, structural equality relation on all pairs and against native types, all constructor overloads and construction routes, "
+                    "two- and three-call histories and calling contexts (results must equal the isolated call), mutation histories against a container model, boundary integers/floats and far-from-usual sizes, three parse entry points",
         assumptions=[
             "floats are finite normal doubles (NaN, infinities, denormals are don't-care and not generated); compared to relative 1e-5 = the six significant digits %g keeps",
             "dictionary keys are unique (duplicates cannot be built through the API); dictionary order is never compared positionally (SORT_DICT_KEYS or key lookup)",
-            "serialize() is called with indent_level 0 only",
+            "serialize() with indent_level != 0 (section wide) is only required to parse back to the same value; its layout is not compared",
+            "equality: two values are equal iff same kind and same content, integers and floats compared numerically (JSON.hh: int and float are implicitly convertible); int/float pairs whose integer exceeds 2^53 "
+            "(2^24 against a float operand) are executed, not compared; ordering operators (<, <=, >, >=) are executed, never compared (not part of the statement)",
+            "copy assignment: the source may be the destination itself (a = a must leave a unchanged); assignment from a sub-tree of the destination (a = a.at(k)) is executed in a child process and only counted "
+            "(JSON.hh is silent on it) - see counters dontcare_assign_from_own_subtree_*",
+            "mutating members are modelled as JSON.hh documents them ('behave like the corresponding functions on std::vector or std::unordered_map', type_error on the wrong kind); front()/back() on an empty list are not called",
+            "JSON(uint64 above INT64_MAX): only what was stored must round-trip; the two initializer_list dictionary constructors are declared but not defined in JSON.cc and cannot be linked - not exercised",
+            "float sweep: doubles whose six-digit decimal rounding is below DBL_MIN (2^-1022 and its neighbours) are skipped - the rounded value is a denormal",
+            "call histories: 'in isolation' means the first execution of the call on freshly built objects in the same process; ambient errno is re-poisoned before every call",
             "text produced with HEX_ESCAPE_CODES or ESCAPE_CONTROLS_ONLY is only required to round-trip through the default parser (the header calls both non-standard); "
             "it is not shown to strict mode, R_std, R_ext or Python",
             "quick tier: the 65 536 two-byte strings are crossed with 16 option sets (HEX_INTEGERS / ONE_CHARACTER_TRIVIAL_CONSTANTS cannot change how a string or key is rendered); thorough uses all 64",
